@@ -3,6 +3,15 @@
 //!
 //! ops:  `bits <len> <[words]>`                 set the bit vector (raw parts: stale tail bits and
 //!                                              extra words are allowed)
+//!       `bits_sparse <len> <nwords> <fill> <[p0,p1,…]>`
+//!                                              huge vector stated sparsely: a backend of `nwords`
+//!                                              words, all 0 (`fill` = 0) or all `usize::MAX`
+//!                                              (`fill` = 1), in which the bits at the listed
+//!                                              positions (strictly increasing, < 64 * nwords;
+//!                                              positions >= len are stale bits) are flipped.
+//!                                              After it, `parts` prints every list of more than
+//!                                              4096 numbers as `#<length>:<hash>` (FNV-1a-style
+//!                                              over the values as u64)
 //!       `build <sid> <p1> <p2>`                build structure `sid` over the current bits
 //!       `rank p` `rank_zero p` `num_ones` `num_zeros` `count_ones` `len` `index i`
 //!       `select r` `select_zero r`             queries on the built structure
@@ -12,6 +21,56 @@ use sux::prelude::*;
 
 type BV = BitVec<Vec<usize>>;
 type AB = AddNumBits<BV>;
+
+thread_local! {
+    /// set while a `bits_sparse` vector is current: long lists in `parts` are printed as digests
+    static DIGEST: std::cell::Cell<bool> = const { std::cell::Cell::new(false) };
+}
+/// lists longer than this are printed as `#<length>:<hash>` in digest mode
+const LIST_MAX: usize = 4096;
+
+trait AsU64 {
+    fn as_u64(&self) -> u64;
+}
+impl AsU64 for usize {
+    fn as_u64(&self) -> u64 {
+        *self as u64
+    }
+}
+impl AsU64 for u32 {
+    fn as_u64(&self) -> u64 {
+        *self as u64
+    }
+}
+impl<T: AsU64> AsU64 for &T {
+    fn as_u64(&self) -> u64 {
+        (**self).as_u64()
+    }
+}
+
+/// `fmt_list`, or in digest mode for long lists `#<length>:<h>` with
+/// `h = (h ^ x) * 0x100000001b3` (wrapping, over u64) from `0xcbf29ce484222325`
+fn fl<T: AsU64>(xs: impl IntoIterator<Item = T>) -> String {
+    let it = xs.into_iter().map(|x| x.as_u64());
+    if !DIGEST.with(|d| d.get()) {
+        return fmt_list(it);
+    }
+    let mut head: Vec<u64> = vec![];
+    let mut n = 0usize;
+    let mut h: u64 = 0xcbf29ce484222325;
+    for x in it {
+        if n <= LIST_MAX {
+            head.push(x);
+        }
+        n += 1;
+        h = (h ^ x).wrapping_mul(0x100000001b3);
+    }
+    if n <= LIST_MAX {
+        fmt_list(head)
+    } else {
+        format!("#{}:{}", n, h)
+    }
+}
 
 /// exported internal arrays, outermost structure first, layers separated by " | "
 pub trait P {
@@ -39,8 +98,8 @@ impl P for Rank9<BV> {
         let c = self.verif_counts();
         format!(
             "r9 abs={} rel={}",
-            fmt_list(c.iter().map(|x| x.0)),
-            fmt_list(c.iter().map(|x| x.1))
+            fl(c.iter().map(|x| x.0)),
+            fl(c.iter().map(|x| x.1))
         )
     }
 }
@@ -49,9 +108,9 @@ impl<const N: usize, const W: usize> P for RankSmall<N, W, BV> {
         let (u, c, n) = self.verif_parts();
         format!(
             "rs upper={} abs={} rel={} ones={}",
-            fmt_list(u.iter()),
-            fmt_list(c.iter().map(|x| x.0)),
-            fmt_list(c.iter().flat_map(|x| x.1.iter().copied())),
+            fl(u.iter()),
+            fl(c.iter().map(|x| x.0)),
+            fl(c.iter().flat_map(|x| x.1.iter().copied())),
             n
         )
     }
@@ -60,7 +119,7 @@ impl<R: P> P for Select9<R> {
     fn parts(&self) -> String {
         let (i, s, a, b) = self.verif_parts();
         join(
-            format!("s9 inv={} sub={} isz={} ssz={}", fmt_list(i.iter()), fmt_list(s.iter()), a, b),
+            format!("s9 inv={} sub={} isz={} ssz={}", fl(i.iter()), fl(s.iter()), a, b),
             self.verif_inner().parts(),
         )
     }
@@ -69,7 +128,7 @@ impl<B: P> P for SelectAdapt<B> {
     fn parts(&self) -> String {
         let (i, s, l, s16, m) = self.verif_parts();
         join(
-            format!("sa inv={} spill={} l={} s16={} m={}", fmt_list(i.iter()), fmt_list(s.iter()), l, s16, m),
+            format!("sa inv={} spill={} l={} s16={} m={}", fl(i.iter()), fl(s.iter()), l, s16, m),
             self.verif_inner().parts(),
         )
     }
@@ -78,7 +137,7 @@ impl<B: P> P for SelectZeroAdapt<B> {
     fn parts(&self) -> String {
         let (i, s, l, s16, m) = self.verif_parts();
         join(
-            format!("sza inv={} spill={} l={} s16={} m={}", fmt_list(i.iter()), fmt_list(s.iter()), l, s16, m),
+            format!("sza inv={} spill={} l={} s16={} m={}", fl(i.iter()), fl(s.iter()), l, s16, m),
             self.verif_inner().parts(),
         )
     }
@@ -87,7 +146,7 @@ impl<B: P, const L: usize, const M: usize> P for SelectAdaptConst<B, Box<[usize]
     fn parts(&self) -> String {
         let (i, s) = self.verif_parts();
         join(
-            format!("sac inv={} spill={} l={} m={}", fmt_list(i.iter()), fmt_list(s.iter()), L, M),
+            format!("sac inv={} spill={} l={} m={}", fl(i.iter()), fl(s.iter()), L, M),
             self.verif_inner().parts(),
         )
     }
@@ -96,7 +155,7 @@ impl<B: P, const L: usize, const M: usize> P for SelectZeroAdaptConst<B, Box<[us
     fn parts(&self) -> String {
         let (i, s) = self.verif_parts();
         join(
-            format!("szac inv={} spill={} l={} m={}", fmt_list(i.iter()), fmt_list(s.iter()), L, M),
+            format!("szac inv={} spill={} l={} m={}", fl(i.iter()), fl(s.iter()), L, M),
             self.verif_inner().parts(),
         )
     }
@@ -105,7 +164,7 @@ impl<C: P, const N: usize, const W: usize> P for SelectSmall<N, W, C> {
     fn parts(&self) -> String {
         let (i, b, l) = self.verif_parts();
         join(
-            format!("ss inv={} begin={} l={}", fmt_list(i.iter()), fmt_list(b.iter()), l),
+            format!("ss inv={} begin={} l={}", fl(i.iter()), fl(b.iter()), l),
             self.verif_inner().parts(),
         )
     }
@@ -114,7 +173,7 @@ impl<C: P, const N: usize, const W: usize> P for SelectZeroSmall<N, W, C> {
     fn parts(&self) -> String {
         let (i, b, l) = self.verif_parts();
         join(
-            format!("szs inv={} begin={} l={}", fmt_list(i.iter()), fmt_list(b.iter()), l),
+            format!("szs inv={} begin={} l={}", fl(i.iter()), fl(b.iter()), l),
             self.verif_inner().parts(),
         )
     }
@@ -286,22 +345,112 @@ fn build(sid: &str, p1: usize, p2: usize, bits: BV) -> Option<Box<dyn RS>> {
     })
 }
 
+/// a `bits_sparse` vector: the naive oracle works on the list of flipped positions only
+struct Sparse {
+    nw: usize,
+    fill: bool,
+    /// all flipped positions (also the stale ones at or beyond `len`), strictly increasing
+    flips: Vec<usize>,
+    /// number of flipped positions below `len`
+    inside: usize,
+}
+
+impl Sparse {
+    /// the backend (allocated for each build and dropped with the structure)
+    fn words(&self) -> Vec<usize> {
+        let mut ws = vec![if self.fill { usize::MAX } else { 0 }; self.nw];
+        for &p in &self.flips {
+            ws[p / 64] ^= 1usize << (p % 64);
+        }
+        ws
+    }
+    /// position of the `r`-th (from 0) position of `0..len` that is not flipped
+    fn nth_unflipped(&self, r: usize, len: usize) -> Option<usize> {
+        let mut pos = r;
+        for &f in &self.flips[..self.inside] {
+            if f <= pos {
+                pos += 1;
+            } else {
+                break;
+            }
+        }
+        if pos < len {
+            Some(pos)
+        } else {
+            None
+        }
+    }
+    fn nth_flipped(&self, r: usize) -> Option<usize> {
+        self.flips[..self.inside].iter().nth(r).copied()
+    }
+}
+
 struct S {
     words: Vec<usize>,
     len: usize,
     ob: Vec<bool>,
     ones: Vec<usize>,
     zeros: Vec<usize>,
+    sp: Option<Sparse>,
     st: Option<Box<dyn RS>>,
 }
 
+impl S {
+    fn n1(&self) -> usize {
+        match &self.sp {
+            Some(sp) if sp.fill => self.len - sp.inside,
+            Some(sp) => sp.inside,
+            None => self.ones.len(),
+        }
+    }
+    fn n0(&self) -> usize {
+        self.len - self.n1()
+    }
+    /// naive rank: number of ones below `min(p, len)`
+    fn o_rank(&self, p: usize) -> usize {
+        match &self.sp {
+            Some(sp) => {
+                let c = sp.flips[..sp.inside].iter().filter(|&&k| k < p).count();
+                if sp.fill {
+                    p.min(self.len) - c
+                } else {
+                    c
+                }
+            }
+            None => self.ones.iter().filter(|&&k| k < p).count(),
+        }
+    }
+    fn o_select(&self, r: usize) -> Option<usize> {
+        match &self.sp {
+            Some(sp) if sp.fill => sp.nth_unflipped(r, self.len),
+            Some(sp) => sp.nth_flipped(r),
+            None => self.ones.as_slice().iter().nth(r).copied(),
+        }
+    }
+    fn o_select_zero(&self, r: usize) -> Option<usize> {
+        match &self.sp {
+            Some(sp) if sp.fill => sp.nth_flipped(r),
+            Some(sp) => sp.nth_unflipped(r, self.len),
+            None => self.zeros.as_slice().iter().nth(r).copied(),
+        }
+    }
+    fn o_bit(&self, i: usize) -> bool {
+        match &self.sp {
+            Some(sp) => sp.fill ^ sp.flips.binary_search(&i).is_ok(),
+            None => self.ob[i],
+        }
+    }
+}
+
 fn fresh() -> S {
+    DIGEST.with(|d| d.set(false));
     S {
         words: vec![],
         len: 0,
         ob: vec![],
         ones: vec![],
         zeros: vec![],
+        sp: None,
         st: None,
     }
 }
@@ -328,13 +477,37 @@ fn exec(ctx: &mut Ctx, s: &mut S, op: &str) {
                 .collect();
             s.ones = (0..s.len).filter(|&k| s.ob[k]).collect();
             s.zeros = (0..s.len).filter(|&k| !s.ob[k]).collect();
+            s.sp = None;
+            DIGEST.with(|d| d.set(false));
             s.st = None;
+            ("ok".into(), "ok".into())
+        }
+        "bits_sparse" => {
+            s.st = None; // drop the previous structure (and its backend) first
+            s.len = num(1);
+            let nw = num(2);
+            let fill = num(3) != 0;
+            let flips = parse_words(t[4]);
+            assert!(s.len <= nw * 64);
+            assert!(flips.windows(2).all(|w| w[0] < w[1]) && flips.iter().all(|&p| p < nw * 64));
+            let inside = flips.iter().filter(|&&p| p < s.len).count();
+            s.words = vec![];
+            s.ob = vec![];
+            s.ones = vec![];
+            s.zeros = vec![];
+            s.sp = Some(Sparse { nw, fill, flips, inside });
+            DIGEST.with(|d| d.set(true));
             ("ok".into(), "ok".into())
         }
         "build" => {
             let sid = t[1];
             let (p1, p2) = (num(2), num(3));
-            let bits = unsafe { BV::from_raw_parts(s.words.clone(), s.len) };
+            s.st = None; // one huge structure at a time
+            let words = match &s.sp {
+                Some(sp) => sp.words(),
+                None => s.words.clone(),
+            };
+            let bits = unsafe { BV::from_raw_parts(words, s.len) };
             match catch(|| build(sid, p1, p2, bits)) {
                 Some(Some(st)) => {
                     s.st = Some(st);
@@ -355,8 +528,8 @@ fn exec(ctx: &mut Ctx, s: &mut S, op: &str) {
                     return;
                 }
             };
-            let n1 = s.ones.len();
-            let n0 = s.zeros.len();
+            let n1 = s.n1();
+            let n0 = s.n0();
             let fmt_o = |x: Option<Option<usize>>| match x {
                 None => "na".to_string(),
                 Some(None) => "ok none".to_string(),
@@ -370,7 +543,7 @@ fn exec(ctx: &mut Ctx, s: &mut S, op: &str) {
                 "rank" => {
                     let p = num(1);
                     let r = catch(|| st.rank(p));
-                    let exp = s.ones.iter().filter(|&&k| k < p).count();
+                    let exp = s.o_rank(p);
                     (
                         r.map(fmt_u).unwrap_or("panic".into()),
                         format!("ok {}", exp),
@@ -379,7 +552,7 @@ fn exec(ctx: &mut Ctx, s: &mut S, op: &str) {
                 "rank_zero" => {
                     let p = num(1);
                     let r = catch(|| st.rank_zero(p));
-                    let exp = p - s.ones.iter().filter(|&&k| k < p).count();
+                    let exp = p - s.o_rank(p);
                     (
                         r.map(fmt_u).unwrap_or("panic".into()),
                         format!("ok {}", exp),
@@ -408,7 +581,7 @@ fn exec(ctx: &mut Ctx, s: &mut S, op: &str) {
                     (
                         r.map(|b| format!("ok {}", b01(b))).unwrap_or("panic".into()),
                         if i < s.len {
-                            format!("ok {}", b01(s.ob[i]))
+                            format!("ok {}", b01(s.o_bit(i)))
                         } else {
                             "panic".into()
                         },
@@ -419,10 +592,9 @@ fn exec(ctx: &mut Ctx, s: &mut S, op: &str) {
                     let x = catch(|| st.select(r));
                     (
                         x.map(fmt_o).unwrap_or("panic".into()),
-                        if r < n1 {
-                            format!("ok {}", s.ones[r])
-                        } else {
-                            "ok none".into()
+                        match s.o_select(r) {
+                            Some(v) => format!("ok {}", v),
+                            None => "ok none".into(),
                         },
                     )
                 }
@@ -431,10 +603,9 @@ fn exec(ctx: &mut Ctx, s: &mut S, op: &str) {
                     let x = catch(|| st.select_zero(r));
                     (
                         x.map(fmt_o).unwrap_or("panic".into()),
-                        if r < n0 {
-                            format!("ok {}", s.zeros[r])
-                        } else {
-                            "ok none".into()
+                        match s.o_select_zero(r) {
+                            Some(v) => format!("ok {}", v),
+                            None => "ok none".into(),
                         },
                     )
                 }
@@ -719,8 +890,212 @@ fn query_battery(ctx: &mut Ctx, s: &mut S, full: bool) {
     }
 }
 
+
+// ---------------------------------------------------------------------------- huge vectors
+
+/// which query families a structure id offers (the others would only reply `na`)
+fn offers(sid: &str) -> (bool, bool, bool) {
+    // (rank, select, select_zero)
+    match sid {
+        "rank9" | "rs" => (true, false, false),
+        "sel9" | "sa_r9" | "ss" | "ss_new" => (true, true, false),
+        "szs" | "szs_new" => (true, false, true),
+        "sa" | "sa_new" | "sa_span" | "sac" => (false, true, false),
+        "sza" | "sza_new" | "sza_span" | "szac" => (false, false, true),
+        "sza_sa" | "sa_sza" => (false, true, true),
+        _ => (true, true, true),
+    }
+}
+
+/// queries on a structure over the current `bits_sparse` vector: every rank of the sparse kind
+/// (sampled above 3000), and for the dense kind / `rank` the positions around every flipped bit,
+/// around the multiples of 2^32 and at both ends
+fn huge_battery(ctx: &mut Ctx, s: &mut S, sid: &str) {
+    for o in ["parts", "len", "num_ones", "num_zeros", "count_ones"] {
+        exec(ctx, s, o);
+    }
+    let (has_rank, has_sel, has_sel0) = offers(sid);
+    let len = s.len;
+    let (fill, flips, inside) = {
+        let sp = s.sp.as_ref().unwrap();
+        (sp.fill, sp.flips.clone(), sp.inside)
+    };
+    let fl_in = &flips[..inside];
+    // ranks of the sparse kind
+    let mut sparse_r: Vec<usize> = vec![];
+    if inside <= 3000 {
+        sparse_r.extend(0..=inside + 1);
+    } else {
+        sparse_r.extend(0..40);
+        sparse_r.extend(inside - 40..=inside + 1);
+        sparse_r.extend((0..inside).step_by(inside / 300 + 1));
+        for j in 6..=16 {
+            for k in 1..4 {
+                for d in [0usize, 1, 2] {
+                    sparse_r.push(((k << j) + d).saturating_sub(1));
+                }
+            }
+        }
+        sparse_r.retain(|&r| r <= inside + 1);
+    }
+    sparse_r.sort();
+    sparse_r.dedup();
+    // interesting positions
+    let mut pos: Vec<usize> = vec![0, 1, 63, 64, len / 2, len.saturating_sub(2), len.saturating_sub(1)];
+    let near = |f: usize| (f % (1usize << 32)).min((1usize << 32) - f % (1usize << 32)) < (1 << 21);
+    for (i, &f) in fl_in.iter().enumerate() {
+        if i < 24 || i + 8 >= inside || (near(f) && pos.len() < 400) {
+            pos.push(f.saturating_sub(1));
+            pos.push(f);
+            pos.push(f + 1);
+        }
+    }
+    let mut m = 1usize << 32;
+    while m < len + 3 {
+        for d in 0..5 {
+            pos.push(m + d - 2);
+        }
+        m += 1 << 32;
+    }
+    pos.retain(|&p| p < len);
+    pos.sort();
+    pos.dedup();
+    // ranks of the dense kind at those positions
+    let mut dense_r: Vec<usize> = vec![];
+    for &p in &pos {
+        if fl_in.binary_search(&p).is_err() {
+            dense_r.push(p - fl_in.iter().filter(|&&k| k < p).count());
+        }
+    }
+    let nd = len - inside;
+    dense_r.extend([nd.saturating_sub(1), nd, nd + 1, nd + (1 << 32)]);
+    dense_r.sort();
+    dense_r.dedup();
+    let (ones_r, zeros_r) = if fill { (dense_r, sparse_r) } else { (sparse_r, dense_r) };
+    if has_sel {
+        for &r in &ones_r {
+            exec(ctx, s, &format!("select {}", r));
+        }
+    }
+    if has_sel0 {
+        for &r in &zeros_r {
+            exec(ctx, s, &format!("select_zero {}", r));
+        }
+    }
+    if has_rank {
+        for &p in pos.iter().chain([len, len + 1, len + (1 << 32)].iter()) {
+            exec(ctx, s, &format!("rank {}", p));
+            if p % 3 == 0 {
+                exec(ctx, s, &format!("rank_zero {}", p));
+            }
+            if p % 5 == 0 {
+                exec(ctx, s, &format!("index {}", p));
+            }
+        }
+    }
+}
+
+/// one case: a huge vector and a list of structures built over it one at a time
+fn huge_case(
+    ctx: &mut Ctx,
+    name: &str,
+    len: usize,
+    extra_words: usize,
+    fill: bool,
+    flips: &[usize],
+    builds: &[(&str, usize, usize)],
+) {
+    let nw = len.div_ceil(64) + extra_words;
+    let mut fl: Vec<usize> = flips.to_vec();
+    fl.sort();
+    fl.dedup();
+    ctx.case();
+    let mut s = fresh();
+    exec(
+        ctx,
+        &mut s,
+        &format!("bits_sparse {} {} {} {}", len, nw, fill as usize, fmt_list(fl.iter())),
+    );
+    for &(sid, p1, p2) in builds {
+        exec(ctx, &mut s, &format!("build {} {} {}", sid, p1, p2));
+        huge_battery(ctx, &mut s, sid);
+        s.st = None;
+        ctx.shape(format!("huge:{}:{}:{}:{}", name, sid, p1, p2));
+        ctx.stat("huge-builds");
+    }
+}
+
+/// Directed cases on vectors of more than 2^32 bits (thorough tier only): the 64-bit span encoding
+/// of the adaptive selectors (an inventory span of more than 2^32 bits stores exact positions, in
+/// the subinventory first and then in the spill), the second and third 2^32-bit superblock of
+/// `RankSmall` / `SelectSmall` / `SelectZeroSmall` (regression inputs of D25 and D27), and
+/// `Select9` / `Rank9` with positions and counts beyond 2^32.
+fn huge_cases(ctx: &mut Ctx) {
+    const B: usize = 1 << 32;
+    // --- H1: one inventory span of exactly 2^32 - 1, 2^32, 2^32 + 1 bits with four ones per entry
+    // (2^32 is the largest 32-bit span); the last one of the entry lies at the largest possible
+    // offset, span - 1
+    for d in 0..3usize {
+        let len = B + (1 << 20) + 37;
+        let ones = [7, 1000, 5000, B + 5 + d, B + 6 + d, B + 70000, B + 70001, B + 70002, B + (1 << 20)];
+        let all: &[(&str, usize, usize)] = &[
+            ("sa", 2, 0), ("sac", 2, 0), ("sa", 2, 1), ("sa", 1, 0), ("sac", 1, 0), ("sa", 0, 0), ("sa", 3, 0),
+            ("sa", 3, 1), ("sac", 3, 1), ("sac", 4, 0), ("sa_new", 0, 3), ("sa_span", B, 2),
+        ];
+        let few: &[(&str, usize, usize)] = &[("sa", 2, 0), ("sac", 2, 0), ("sa", 2, 1)];
+        huge_case(ctx, &format!("span32{}", ["-1", "", "+1"][d]), len, 0, false, &ones,
+            if d == 1 { all } else { few });
+    }
+    // --- H2: 16-, 32- and 64-bit spans in one vector; stale ones beyond len and extra words
+    let h2_len = B + (1 << 22) + 1;
+    let mut h2: Vec<usize> = (1000..1064).collect();
+    h2.extend((0..30).map(|i| (1 << 20) + i * 100_000));
+    // (the jump from the last ones of the second group to these is longer than 2^32 bits)
+    h2.extend([0usize, 1, 5, 70_000, 70_001, 70_002, 200_000].iter().map(|x| B + (1 << 22) - 300_000 + x));
+    h2.push(h2_len - 1);
+    let mut h2_stale = h2.clone();
+    h2_stale.extend([h2_len + 3, h2_len + 40, 64 * h2_len.div_ceil(64) + 5, 64 * (h2_len.div_ceil(64) + 1) + 63]);
+    huge_case(ctx, "mix", h2_len, 2, false, &h2_stale, &[
+        ("sa", 3, 1), ("sa", 2, 0), ("sa", 4, 3), ("sa", 6, 2), ("sa", 5, 0), ("sac", 3, 1), ("sac", 5, 2),
+        ("sac", 8, 1), ("sac", 8, 4), ("sac", 12, 3), ("sac", 6, 0), ("sa_new", 0, 3), ("sa_span", 1 << 30, 3),
+        ("sa_r9", 3, 1),
+    ]);
+    // --- H3: the same vector complemented: zero selectors (stale zeros beyond len, extra words)
+    huge_case(ctx, "mix-zero", h2_len, 2, true, &h2_stale, &[
+        ("sza", 3, 1), ("sza", 4, 3), ("sza", 6, 2), ("szac", 5, 2), ("szac", 8, 1), ("sza_span", 1 << 30, 3),
+    ]);
+    for d in 1..3usize {
+        let len = B + (1 << 20) + 37;
+        let zeros = [7, 1000, 5000, B + 5 + d, B + 6 + d, B + 70000, B + 70001, B + 70002, B + (1 << 20)];
+        let all: &[(&str, usize, usize)] = &[("sza", 2, 0), ("szac", 2, 0), ("sza", 1, 0)];
+        huge_case(ctx, &format!("span32{}-zero", ["-1", "", "+1"][d]), len, 0, true, &zeros,
+            if d == 1 { all } else { &all[..2] });
+    }
+    // --- H4: ten thousand ones in two clusters 2^32 bits apart: large inventories (4096 / 8192 ones
+    // per entry) whose middle entry stores thousands of exact positions; Select9 / Rank9 /
+    // RankSmall / SelectSmall over the same vector
+    let h4_len = B + (1 << 20) + 12_345;
+    let mut h4: Vec<usize> = (0..5000).map(|i| i * 100).collect();
+    h4.extend((0..5000).map(|i| B + (1 << 19) + i * 97));
+    huge_case(ctx, "clusters", h4_len, 0, false, &h4, &[
+        ("sa", 12, 3), ("sac", 12, 3), ("sac", 13, 4), ("sac", 13, 0), ("sac", 10, 2), ("sa", 10, 16),
+        ("sa", 16, 2), ("sa", 9, 3), ("sa_new", 0, 3), ("sa_span", 1 << 20, 2), ("sa_span", B, 3),
+        ("rank9", 0, 0), ("sa_r9", 10, 3),
+    ]);
+    // (every SelectSmall / SelectZeroSmall build below has a RankSmall layer of the same variant:
+    // its counters are compared through `parts` and its `rank` is queried)
+    huge_case(ctx, "clusters", h4_len, 0, false, &h4, &[("sel9", 0, 0), ("ss", 4, 1 << 14)]);
+    huge_case(ctx, "clusters", h4_len, 0, false, &h4, &[("ss", 0, 8), ("szs", 3, 64)]);
+    huge_small_cases(ctx);
+}
+
 pub fn run(ctx: &mut Ctx) {
     let thorough = ctx.tier == Tier::Thorough;
+    // development aid (never set by the registered commands): only the huge-vector cases
+    if std::env::var("SUX_VERIF_RANKSEL_ONLY").as_deref() == Ok("huge") {
+        huge_cases(ctx);
+        return;
+    }
     let cfgs = all_configs(ctx, thorough);
     // directed core: every configuration on a few fixed shapes (incl. stale tails, D1-D4 inputs)
     let directed: Vec<(usize, Vec<usize>)> = vec![
@@ -882,6 +1257,9 @@ pub fn run(ctx: &mut Ctx) {
             ctx.shape(format!("{}:{}:{}:{}:{}", shape, lc, sid, p1, p2));
         }
     }
+    if thorough {
+        huge_cases(ctx);
+    }
 }
 
 pub fn replay(ctx: &mut Ctx, lines: &[String]) {
@@ -894,5 +1272,39 @@ pub fn replay(ctx: &mut Ctx, lines: &[String]) {
         } else {
             exec(ctx, &mut s, l);
         }
+    }
+}
+
+/// `RankSmall` / `SelectSmall` / `SelectZeroSmall` beyond the first 2^32-bit superblock:
+/// regression inputs of D25 (`inventory_begin` must have one entry per superblock, also for a
+/// superblock without inventory entry) and D27 (with the last inventory entry the block search must
+/// stop at the end of the superblock of the rank)
+fn huge_small_cases(ctx: &mut Ctx) {
+    const B: usize = 1 << 32;
+    // D25, smallest form: no one in the first superblock
+    {
+        let len = B + (1 << 20) + 5;
+        let f = [B + 5, B + 1000, B + 70_000];
+        huge_case(ctx, "d25-empty-sb0", len, 0, false, &f, &[("ss", 2, 8), ("ss", 4, 8)]);
+        huge_case(ctx, "d25-empty-sb0-zero", len, 0, true, &f, &[("szs", 0, 8)]);
+    }
+    // D27: the last inventory entry lies near the end of the first superblock, so that the block
+    // search reaching the end of the vector would probe the counters of the second superblock
+    {
+        let len = B + (1 << 22) + 1;
+        let f = [5, 1000, B - (1 << 20)];
+        huge_case(ctx, "d27-short", len, 0, false, &f, &[("ss", 1, 8), ("ss", 3, 8)]);
+    }
+    // D27 as reported: 2^33 bits, ones at 5, 1000, 2^31
+    huge_case(ctx, "d27", 2 * B, 0, false, &[5, 1000, 1 << 31], &[("ss_new", 3, 0)]);
+    // D25 as reported, on three superblocks: 11 ones in the first (inventory entries at ranks 0
+    // and 8), 4 in the second (none), 49 in the third (entries at ranks 16, 24, ...)
+    {
+        let len = 2 * B + (1 << 20) + 5;
+        let mut f = vec![7, 1000, 70_000, 1 << 20, 1 << 25, 1 << 30, 1 << 31, (1 << 31) + 5, B - (1 << 20), B - 100, B - 1];
+        f.extend([B, B + 1, B + (1 << 31), 2 * B - 1]);
+        f.extend((0..49).map(|i| 2 * B + i * 20_000 + 3));
+        huge_case(ctx, "d25", len, 0, false, &f, &[("ss", 4, 1 << 17), ("ss", 2, 1 << 20)]);
+        huge_case(ctx, "d25-zero", len, 0, true, &f, &[("szs", 4, 1 << 17)]);
     }
 }
